@@ -164,7 +164,7 @@ fn run(tier: &str, stats: &'static Stats) {
             Ok(d) => {
                 ctx.run_regressions(&d);
                 ctx.run_known_reproducers(&d);
-                let sel = d.selection(if ctx.thorough() { 160 } else { 60 });
+                let sel = d.selection(if ctx.thorough() { 400 } else { 128 });
                 let n = sel.insts.len();
                 ctx.run_enum(&d, vec![sel]);
                 if ctx.thorough() {
